@@ -396,7 +396,9 @@ func (c *Conn) HandshakeContext(ctx context.Context) error {
 // DTLS 1.3 is selected, the DTLS 1.3 FSM imports those packets into its
 // transcript.
 func (c *Conn) prepareHandshakeStart(ctx context.Context) (handshakeStart, error) {
-	if c.handshakeConfig.MaxVersion == protocol.Version1_2 {
+	if c.handshakeConfig.MaxVersion == protocol.Version1_2 || c.handshakeConfig.ResumeState != nil {
+		// Only DTLS 1.2 state can be exported: a connection resumed from it
+		// is a DTLS 1.2 connection whatever versions the options allow.
 		return c.prepareHandshakeStart12(), nil
 	}
 	if c.handshakeConfig.MinVersion == protocol.Version1_3 {
